@@ -51,6 +51,15 @@ structure St where
   capTab : Nat → Nat → Nat := fun _ len => len ||| 3
                                 -- parameter, never changed by a step: capacity policy of the String allocation
                                 -- sites (site, requested minimum ↦ capacity), measured on the real class by the harness
+  growTab : Nat → Nat → Nat := fun _ len => len ||| 3
+                                -- parameter: capacity chosen by `detach` for the ONLY owner of a block that is too small
+                                -- (old capacity, requested minimum ↦ capacity), measured the same way
+  assignSameSkip : Bool := false
+                                -- parameter: `operator=` between two handles of the SAME counted block performs no atomic
+                                -- operation (true) or increment + decrement (false); measured the same way
+  assignEmptyStatic : Bool := false
+                                -- parameter: `operator=` from the static empty String stores the static descriptor (true)
+                                -- or allocates an empty block (false); measured the same way
 
 def upd {α : Type} (f : Nat → α) (i : Nat) (x : α) : Nat → α := fun j => if j = i then x else f j
 
@@ -445,6 +454,15 @@ def blkOf (st : St) (d : Nat) : Option Nat := match st.slots d with | .blk b => 
 
 def embOf (st : St) (d : Nat) : Option Nat := match st.slots d with | .blk b => some (embSlot b) | _ => none
 
+/-- capacity of the block `detach(…, min)` allocates for slot d when it does not write in place: a shared or unowned source is
+    cloned tightly (`capTab siteDetach`), the only owner of a too small block may grow faster (`growTab`) -/
+def detCap (st : St) (d min : Nat) : Nat :=
+  match st.slots d with
+  | .blk b => match st.heap b with
+    | some blk => if blk.ref = 1 then st.growTab blk.cap min else st.capTab siteDetach min
+    | none => st.capTab siteDetach min
+  | _ => st.capTab siteDetach min
+
 /-- the steps of an API call up to and including its plain read of the counter (if it has one) -/
 def pre (st : St) (tid : Nat) : ApiOp → List Act
   | .sNew d bytes => rel d ++ [.alloc d tagStr bytes (st.capTab siteCtor bytes.length)]
@@ -457,8 +475,9 @@ def pre (st : St) (tid : Nat) : ApiOp → List Act
       | .inl _ val => [.alloc d tagStr val (st.capTab siteCopy val.length)])
   | .sAssign d s =>
     match st.slots s with
-    | .blk _ => shareAssign tid d s
-    | _ => rel d ++ [.alloc d tagStr (viewVal st s) (st.capTab siteAssign (viewVal st s).length)]
+    | .blk _ => if st.assignSameSkip && (st.slots d == st.slots s) then [] else shareAssign tid d s
+    | .none => if st.assignEmptyStatic then rel d else rel d ++ [.alloc d tagStr [] (st.capTab siteAssign 0)]
+    | .inl _ val => rel d ++ [.alloc d tagStr val (st.capTab siteAssign val.length)]
   | .sClear d => [.readRef d true]
   | .sAppend d bytes => [.readRef d ((viewVal st d).length + bytes.length ≤ blkCap st d)]
   | .sReserve d n => [.readRef d (max n (viewVal st d).length ≤ blkCap st d)]
@@ -543,22 +562,22 @@ def post (st : St) (tid : Nat) : ApiOp → List Act
   | .sClear d => if isWriting st tid then [.write []] else rel d
   | .sAppend d bytes =>
     let nv := viewVal st d ++ bytes
-    if isWriting st tid then [.write nv] else cloneAllocFirst tid d tagStr nv (st.capTab siteDetach (nv.length))
+    if isWriting st tid then [.write nv] else cloneAllocFirst tid d tagStr nv (detCap st d (nv.length))
   | .sReserve d n =>
     let v := viewVal st d
-    if isWriting st tid then [.write v] else cloneAllocFirst tid d tagStr v (st.capTab siteDetach ((max n v.length)))
+    if isWriting st tid then [.write v] else cloneAllocFirst tid d tagStr v (detCap st d ((max n v.length)))
   | .sPrepend d bytes =>
     let nv := bytes ++ viewVal st d
-    (if isWriting st tid then [.write nv] else cloneAllocFirst tid d tagStr nv (st.capTab siteDetach (nv.length))) ++ rel (tmpU tid)
+    (if isWriting st tid then [.write nv] else cloneAllocFirst tid d tagStr nv (detCap st d (nv.length))) ++ rel (tmpU tid)
   | .sResize d n =>
     let nv := (viewVal st d).take n
-    if isWriting st tid then [.write nv] else cloneAllocFirst tid d tagStr nv (st.capTab siteDetach (n))
+    if isWriting st tid then [.write nv] else cloneAllocFirst tid d tagStr nv (detCap st d (n))
   | .sEdit d kind a b =>
     let v := viewVal st d
     let nv := if kind = 0 then v.map (fun c => if c = a then b else c) else if kind = 1 then v.map lowerByte else v
-    if isWriting st tid then [.write nv] else cloneAllocFirst tid d tagStr nv (st.capTab siteDetach (nv.length))
+    if isWriting st tid then [.write nv] else cloneAllocFirst tid d tagStr nv (detCap st d (nv.length))
   | .sPrintf d x =>
-    if isWriting st tid then [.write (decDigits x)] else cloneAllocFirst tid d tagStr (decDigits x) (st.capTab siteDetach (200))
+    if isWriting st tid then [.write (decDigits x)] else cloneAllocFirst tid d tagStr (decDigits x) (detCap st d (200))
   | .vSetStr d bytes => if isWriting st tid then [.write bytes] else cloneReleaseFirst d tagVStr bytes
   | .vPushA d x =>
     if isWriting st tid then [.write (viewVal st d ++ [x])]
@@ -597,7 +616,7 @@ def post (st : St) (tid : Nat) : ApiOp → List Act
     -- only unterminated attached memory is detached by the conversion: never counted, so the plain read fails and it is cloned
     if isWriting st tid then [.write nv]
     else if skip then []
-    else cloneAllocFirst tid d tagStr nv (st.capTab siteDetach nv.length)
+    else cloneAllocFirst tid d tagStr nv (detCap st d (nv.length))
   | _ => []
 
 /-- single-threaded semantics of one API call: all its steps, uninterrupted, on thread `tid` -/
